@@ -62,6 +62,9 @@ struct Case {
     t: TcpBeh,
     script: Vec<Op>,
     content_seed: u64,
+    /// configuration without a TACT HTTPS / TACT HTTP endpoint (empty URL): that protocol is not permitted
+    #[serde(default)]
+    disabled: [bool; 2],
 }
 
 #[derive(Debug, Clone, Serialize, Deserialize)]
@@ -147,11 +150,11 @@ fn slot_name(s: u8) -> &'static str {
     ["HTTPS", "HTTP", "TCP"][s as usize % 3]
 }
 
-fn make_client(ports: [u16; 3], dir: Option<&std::path::Path>, ttl_1h: [bool; 3]) -> Result<RibbitTactClient, String> {
+fn make_client(ports: [u16; 3], dir: Option<&std::path::Path>, ttl_1h: [bool; 3], disabled: [bool; 2]) -> Result<RibbitTactClient, String> {
     let d = |b: bool| if b { Duration::from_secs(3600) } else { Duration::ZERO };
     let cfg = ClientConfig {
-        tact_https_url: format!("http://127.0.0.1:{}", ports[0]),
-        tact_http_url: format!("http://127.0.0.1:{}", ports[1]),
+        tact_https_url: if disabled[0] { String::new() } else { format!("http://127.0.0.1:{}", ports[0]) },
+        tact_http_url: if disabled[1] { String::new() } else { format!("http://127.0.0.1:{}", ports[1]) },
         ribbit_url: format!("tcp://127.0.0.1:{}", ports[2]),
         cache_config: CacheConfig {
             cache_dir: dir.map(|p| p.to_path_buf()),
@@ -231,7 +234,8 @@ fn judge_network(chain: &[(u8, Cls)], actual: &[u8], res: &Result<String, String
     );
     for s in actual {
         if pos(*s).is_none() {
-            return J::Fail("C13:failover:tcp-only-endpoint-queried-over-http".into(), ctx);
+            let key = if chain.len() == 1 { "C13:failover:tcp-only-endpoint-queried-over-http" } else { "C13:failover:endpoint-outside-the-configuration-contacted" };
+            return J::Fail(key.into(), ctx);
         }
     }
     for w in actual.windows(2) {
@@ -399,7 +403,7 @@ async fn scenario(c: &Case, known: &Known) -> Result<Outcome, String> {
     let ports = [hs.port, ps.port, ts.port];
     let tmp = if c.cache_dir { Some(tempfile::tempdir().map_err(|e| format!("tempdir: {e}"))?) } else { None };
     let cdir = tmp.as_ref().map(|t| t.path().join("cache"));
-    let mut client = match make_client(ports, cdir.as_deref(), c.ttl_1h) {
+    let mut client = match make_client(ports, cdir.as_deref(), c.ttl_1h, c.disabled) {
         Ok(c) => c,
         Err(e) => {
             out.fail = Some(("C13:client:constructor-rejects-documented-configuration".into(), format!("ttl_1h={:?} cache_dir={} -> {e}", c.ttl_1h, c.cache_dir)));
@@ -443,7 +447,7 @@ async fn scenario(c: &Case, known: &Known) -> Result<Outcome, String> {
             }
             Op::NewClient => {
                 drop(client);
-                client = match make_client(ports, cdir.as_deref(), c.ttl_1h) {
+                client = match make_client(ports, cdir.as_deref(), c.ttl_1h, c.disabled) {
                     Ok(c) => c,
                     Err(e) => fail!("C13:client:constructor-rejects-documented-configuration", format!("second client on the same configuration: {e}")),
                 };
@@ -546,7 +550,15 @@ async fn scenario(c: &Case, known: &Known) -> Result<Outcome, String> {
                     out.classes.insert("tcp-only-endpoint");
                     vec![(2, cls_tcp(&tb, &tag))]
                 } else {
-                    vec![(0, cls_http(&hb, &tag)), (1, cls_http(&pb, &tag)), (2, cls_tcp(&tb, &tag))]
+                    let mut ch = Vec::new();
+                    if !c.disabled[0] {
+                        ch.push((0, cls_http(&hb, &tag)));
+                    }
+                    if !c.disabled[1] {
+                        ch.push((1, cls_http(&pb, &tag)));
+                    }
+                    ch.push((2, cls_tcp(&tb, &tag)));
+                    ch
                 };
                 let mut effective_res = res.clone();
                 match judge_network(&chain, &actual, &res) {
@@ -658,7 +670,7 @@ fn check_scenario(c: &Case, known: &Known) -> Verdict {
             for cl in o.classes {
                 v = v.class(cl);
             }
-            v = v.class_if(c.cache_dir, "cache-dir").class_if(!c.cache_dir, "memory-cache");
+            v = v.class_if(c.cache_dir, "cache-dir").class_if(!c.cache_dir, "memory-cache").class_if(c.disabled != [false; 2], "configuration-without-a-tact-endpoint");
             v.known_hits = o.known_hits;
             if let Some((k, m)) = o.fail {
                 v = v.with_fail(k, m);
@@ -691,7 +703,7 @@ async fn split_case(c: &SplitCase) -> Result<Outcome, String> {
             ts.set(AnyBeh::Tcp(split)).await.map_err(|e| format!("mock flip: {e}"))?;
         }
         // a fresh client (memory cache) per round: the cache plays no part here
-        let client = make_client(ports, None, [true; 3])?;
+        let client = make_client(ports, None, [true; 3], [false; 2])?;
         let r = match tokio::time::timeout(QUERY_WATCHDOG, client.query(ep)).await {
             Ok(r) => r,
             Err(_) => return Err(format!("watchdog: split query did not return ({c:?})")),
@@ -830,11 +842,12 @@ fn ttl_st() -> impl Strategy<Value = [bool; 3]> {
 }
 
 fn case_st() -> BoxedStrategy<Case> {
-    (0u8..5, any::<bool>(), ttl_st(), http_st(false), http_st(false), tcp_st(false), proptest::collection::vec(op_st(), 1..=7), any::<u64>())
-        .prop_map(|(class, cache_dir, ttl_1h, h, p, t, mut script, content_seed)| {
+    let disabled = prop_oneof![8 => Just([false, false]), 1 => Just([true, false]), 1 => Just([false, true]), 1 => Just([true, true])];
+    (0u8..5, any::<bool>(), ttl_st(), http_st(false), http_st(false), tcp_st(false), proptest::collection::vec(op_st(), 1..=7), any::<u64>(), disabled)
+        .prop_map(|(class, cache_dir, ttl_1h, h, p, t, mut script, content_seed, disabled)| {
             script.insert(0, Op::Query { which: 0 });
             script.push(Op::Query { which: 0 });
-            Case { class, cache_dir, ttl_1h, h, p, t, script, content_seed }
+            Case { class, cache_dir, ttl_1h, h, p, t, script, content_seed, disabled }
         })
         .boxed()
 }
@@ -850,6 +863,7 @@ fn stall_case_st() -> BoxedStrategy<Case> {
             t,
             script: vec![Op::Query { which: 0 }, Op::Query { which: 0 }],
             content_seed,
+            disabled: [false; 2],
         })
         .boxed()
 }
